@@ -188,6 +188,16 @@ pub trait Check: Sync {
     fn reorder_ok(&self) -> bool {
         false
     }
+    /// Clock faults inserted by the core: the step that lets `n` ledgers pass, for worlds whose model is
+    /// indifferent to (or fully models) the passage of that much time. Storage written to the wrong tier
+    /// (temporary instead of persistent) only shows after long jumps, so every world should allow them.
+    fn clock_step(&self, _n: u32) -> Option<Self::Step> {
+        None
+    }
+    /// upper bound for the total number of ledgers the core may insert into one history
+    fn clock_budget(&self) -> u64 {
+        20_000_000
+    }
     /// counters that must not stay at zero (boundary situations the property depends on)
     fn probes(&self, _prop: &str) -> Vec<&'static str> {
         vec![]
@@ -399,6 +409,28 @@ pub fn mempool<C: Check>(c: &C, rng: &mut Rng, steps: Vec<C::Step>) -> (Vec<C::S
     (out, fired)
 }
 
+/// Clock faults: long waits between transactions (a week, a month, several months, a year of ledgers).
+pub fn clock_faults<C: Check>(c: &C, rng: &mut Rng, mut steps: Vec<C::Step>) -> (Vec<C::Step>, u64) {
+    if c.clock_step(1).is_none() || rng.chance(40) {
+        return (steps, 0);
+    }
+    let mut budget = c.clock_budget();
+    let k = 1 + rng.below(3);
+    let mut fired = 0;
+    for _ in 0..k {
+        let sizes: Vec<u32> = [17u32, 4_100, 120_960, 535_680, 1_600_000, 3_200_000, 6_400_000].into_iter().filter(|x| (*x as u64) <= budget).collect();
+        if sizes.is_empty() {
+            break;
+        }
+        let n = *rng.pick(&sizes);
+        budget -= n as u64;
+        let pos = rng.below(steps.len() as u64 + 1) as usize;
+        steps.insert(pos, c.clock_step(n).unwrap());
+        fired += 1;
+    }
+    (steps, fired)
+}
+
 fn run_digest(st: &Stats, ok: bool) -> u64 {
     use std::hash::{Hash, Hasher};
     let mut h = Fnv(0xcbf29ce484222325);
@@ -445,11 +477,13 @@ pub fn run_world<C: Check>(c: &C, prop: &str, tier: Tier, seed: u64, out_dir: &s
                         continue;
                     };
                     let (steps, mp) = mempool(c, &mut rng, steps);
+                    let (steps, jumps) = clock_faults(c, &mut rng, steps);
                     let mut st = Stats::default();
                     let r = guarded(c, &cfg, &steps, &mut st);
                     st.add("fault.mempool_duplicate_delivery", mp[0]);
                     st.add("fault.mempool_lost_tx", mp[1]);
                     st.add("fault.mempool_reordered_delivery", mp[2]);
+                    st.add("clock.inserted_long_wait", jumps);
                     local_digests.push((run, run_digest(&st, r.is_ok())));
                     let nontrivial = st.counters.get("tx.ok").copied().unwrap_or(0) > 0 && st.counters.get("tx.refused").copied().unwrap_or(0) > 0;
                     if nontrivial {
